@@ -410,7 +410,12 @@ pub fn run(ctx: &Ctx, rep: &mut Report) {
                             continue;
                         }
                         let a = w.app.clone();
-                        w.u.setup(move |env| ProbeExecutableClient::new(env, &a).set_fail(&true));
+                        let fk = rng.below(2) as u32;
+                        w.u.setup(move |env| {
+                            let c = ProbeExecutableClient::new(env, &a);
+                            c.set_fail(&true);
+                            c.set_fail_kind(&fk);
+                        });
                         full(payload.clone())
                     }
                     "deploy-taken-id" => {
